@@ -21,9 +21,9 @@ def install(B, LenV):
                 return LenV(sum(1 for i in x.items if type(i) is not Seg))
             return len(x.items)
         if isinstance(x, SetV):
-            return len(x.items)
+            return LenV(len(x.items)) if x.opaque else len(x.items)
         if isinstance(x, DictV):
-            return len(x.pairs)
+            return LenV(len(x.pairs)) if x.opaque else len(x.pairs)
         if isinstance(x, ProxyV):
             return self.f_len(I, x.d)
         if isinstance(x, (str, bytes)):
